@@ -4,11 +4,11 @@ import json, os, sys
 ROOT = os.path.dirname(os.path.dirname(os.path.abspath(__file__)))
 sys.path.insert(0, os.path.join(ROOT, "tools"))
 from props import PROPS
-from manifest_meta import META, NOT_APPLICABLE, HOOK_COMMITS
+from manifest_meta import NOT_APPLICABLE, HOOK_COMMITS
 
 checks = []
 for pid in sorted(PROPS):
-    m = META[pid]
+    m = PROPS[pid]["manifest"]
     checks.append({
         "property_id": pid,
         "quick_cmd": f"./check {pid} --tier quick",
